@@ -74,6 +74,7 @@ func tableIndexRule(c *Ctx, r *Report, rule string, pick func(fn *ssa.Function) 
 	lemmas, _ := c.scratch["lemmas"].(lemmaSet)
 	sites := e.tableSites()
 	nconst := 0
+	blocked := map[string]int{}
 	type siteKey struct{ fn, table, expr string }
 	seenKey := map[string]int{}
 	for _, s := range sites {
@@ -108,7 +109,9 @@ func tableIndexRule(c *Ctx, r *Report, rule string, pick func(fn *ssa.Function) 
 				for _, a := range axList(lo.ax | hi.ax) {
 					r.assume(axText(a))
 				}
-			} else if cl := lemmaClass(c, r, s, lemmas); cl != "" {
+			} else if cl := lemmaClass(c, r, s, lemmas); strings.HasPrefix(cl, "BLOCKED:") {
+				blocked[strings.TrimPrefix(cl, "BLOCKED:")]++
+			} else if cl != "" {
 				r.ok(rule, construct, pos, fmt.Sprintf("bounds %s : %s; %s", lo, hi, cl)).Class = cl
 			} else {
 				r.bad(rule, construct, pos, fmt.Sprintf("slice bounds %s : %s not proven inside [0,%d]", lo, hi, ln)).Class = "UNPROVEN"
@@ -140,7 +143,10 @@ func tableIndexRule(c *Ctx, r *Report, rule string, pick func(fn *ssa.Function) 
 			}
 			continue
 		}
-		if cl := lemmaClass(c, r, s, lemmas); cl != "" {
+		if cl := lemmaClass(c, r, s, lemmas); strings.HasPrefix(cl, "BLOCKED:") {
+			blocked[strings.TrimPrefix(cl, "BLOCKED:")]++
+			continue
+		} else if cl != "" {
 			r.ok(rule, construct, pos, fmt.Sprintf("index %s; %s", iv, cl)).Class = cl
 			continue
 		}
@@ -151,6 +157,9 @@ func tableIndexRule(c *Ctx, r *Report, rule string, pick func(fn *ssa.Function) 
 			why += ": index out of range panics the accessor"
 		}
 		r.bad(rule, construct, pos, why).Class = "UNPROVEN"
+	}
+	for lemma, n := range blocked {
+		r.bad(rule, fmt.Sprintf("%d decoder sites rest on the data lemma of %s", n, lemma), "-", fmt.Sprintf("%s is violated on this tree, so the %d index/slice sites whose safety is derived from it are unproven (repair the data first)", lemma, n)).Class = "UNPROVEN"
 	}
 	r.note("%s: %d table sites in the library (%d with constant index), %d function analyses in the range fixpoint", rule, len(sites), nconst, e.rounds)
 	r.floor(rule, floor)
